@@ -30,6 +30,21 @@ CLAIMED = {
         technique="TLA+ model checked exhaustively by TLC; counterexample and behaviour replay through scheduler gates; delay-bounded "
                   "schedule exploration with trace validation",
         design="5/C06", engine="tlc-exhaustive"),
+    "C15": dict(
+        text="spec/Compat.tla states the property as a partial specification over an abstract schema AST: MustReject (different base "
+             "kind, incompatible element/key/value/property types, undeclared or missing-required property, differing enforced IDs, "
+             "enum value outside the consumer's set, other discriminator or missing member, ranges that cannot overlap for all 16 "
+             "nil/non-nil bound patterns) and MustAccept (identical, rebuilt from its own description); TLC checks that the two never "
+             "both hold, that the recursive definition terminates on recursive scopes and enumerates all ordered pairs of a universe "
+             "of ~100 schemas plus wrappers to depth 3; each pair is built through the public constructors and "
+             "A.ValidateCompatibility(B) is called 20/100 times in the supervised worker (stack exhaustion is fatal): verdict must be "
+             "an error / nil as demanded, identical across repetitions, and the call must return. Random deeper pairs are validated by "
+             "CompatTrace.tla.",
+        note=TRUST + "The harness's AST -> constructor builder (TypeID binding table checked at start); rebuilt copies are made with "
+             "SelfSerialize + UnserializeScope + ApplySelf; determinism is a bounded observation (20/100 repetitions per pair).",
+        technique="partial TLA+ specification (MustReject/MustAccept) enumerated by TLC over schema pairs; pairs replayed into the real "
+                  "code under a supervised worker; recorded verdicts validated by a trace spec",
+        design="5/C15", engine="tlc-exhaustive"),
     "C16": dict(
         text="TLC enumerates every state of UnitsMC (each integer 0..5000/200000 plus multiplier and power-of-ten edges, half-unit "
              "floats, every token string up to 2/3 tokens over declared units, bare numbers, undeclared units, fractional counts) "
